@@ -63,7 +63,30 @@ class Interp:
             def on_update(self, dt):
                 it.updates.append((self._pair, dt, self.which))
         self.Upd = Upd
-        self.w1, self.w2 = d.World(), d.World()
+        if cfg.get('world_sub'):
+            # a World subclass that answers some queries in its own way
+            # (entities awaiting deletion are hidden): a shorthand is the
+            # *world's* call, not the base class's
+            class HidingWorld(d.World):
+                def has_component(self, entity, component_type):
+                    if not self.entity_exists(entity):
+                        return False
+                    return super().has_component(entity, component_type)
+
+                def get_component(self, entity, component_type, *a, **k):
+                    if not self.entity_exists(entity):
+                        return None
+                    return super().get_component(entity, component_type,
+                                                 *a, **k)
+
+                def get_components(self, entity):
+                    if not self.entity_exists(entity):
+                        return ()
+                    return super().get_components(entity)
+            self.w1, self.w2 = HidingWorld(), HidingWorld()
+            self.probes['world_subclass'] += 1
+        else:
+            self.w1, self.w2 = d.World(), d.World()
         # a second pair of worlds, where processors live that are then
         # assigned through a reference in W1 / added to W2
         self.x1, self.x2 = d.World(), d.World()
@@ -610,7 +633,8 @@ def generate(prop, run_seed, tier='quick', tolerate=frozenset()):
             'refs': sorted(crng.sample(range(nk), crng.randint(0, nk))),
             'prefs': sorted(crng.sample(range(npc), crng.randint(0, npc)))})
     cfg = {'policy': crng.choice(kernel.POLICIES), 'classes': classes,
-           'pclasses': pclasses, 'controllers': controllers}
+           'pclasses': pclasses, 'controllers': controllers,
+           'world_sub': crng.random() < .2}
     forms = ['function', 'method', 'descriptor']
     ops = []
     deep = tier == 'thorough'
@@ -709,7 +733,8 @@ PROBES = {'C19': ['form.function', 'form.method', 'form.descriptor_get',
                   'form.processor_ref', 'form.factory',
                   'controller_attached_disabled', 'proto.dict_wins',
                   'proto.prefix_method', 'proto.default_ctor',
-                  'processor_from_another_world', 'proto.method_kind.static',
+                  'processor_from_another_world', 'world_subclass',
+                  'proto.method_kind.static',
                   'proto.method_kind.class', 'proto.method_kind.partial',
                   'proto.method_kind.instance',
                   'proto.custom_prefix', 'proto.override',
